@@ -20,7 +20,7 @@ LEVELS = (500, 2000, 8000)
 
 @st.composite
 def cases(draw, tier='quick'):
-    case = draw(inf.est_cases(min_attrs=2, max_attrs=4, max_size=4, min_size=draw(st.sampled_from([2, 2, 2, 1])), cap=200, min_m=1, max_m=5, zeros=False, iters=(500,),
+    case = draw(inf.est_cases(min_attrs=2, max_attrs=4, max_size=4, min_size=draw(st.sampled_from([2, 2, 2, 1])), cap=200 if tier == 'quick' else 600, min_m=1, max_m=5 if tier == 'quick' else 7, zeros=False, iters=(500,),
                               totals=(1.0, 10, 1000.0, 37.5, None)))
     case['stepsize'] = None
     return case
